@@ -96,12 +96,16 @@ def run(tier, seed, jobs):
     plans = [{"cfg_ref": ("vf.props.c13", "cfg", [2]), "alphabet": alphabet(tier), "depth": 3 if tier == "quick" else 4, "label": "INBOX(2)"}]
     if tier != "quick":
         plans.append({"cfg_ref": ("vf.props.c13", "cfg", [0]), "alphabet": alphabet(tier), "depth": 3, "label": "INBOX(0)"})
+    core = [{"s": "env", "op": "deliver", "m": "INBOX", "unseen": True}, {"s": "env", "op": "deliver", "m": "INBOX", "unseen": False},
+            {"s": "A", "op": "del", "set": "*"}, {"s": "A", "op": "store", "set": "*", "mode": "+", "flags": "\\Answered \\Flagged"},
+            {"s": "A", "op": "noop"}, {"s": "env", "op": "poll", "dt": 21.0}]
+    plans.append({"cfg_ref": ("vf.props.c13", "cfg", [2]), "alphabet": core, "depth": 5 if tier == "quick" else 7, "label": "INBOX(2), core alphabet, deep"})
     res = run_h(PROP, RULES, plans, ("C13", "C04"), jobs, seed,
                  ["the delivery agent writes message max+1, optionally appends it to `unseen` preserving every other line, and always "
                   "advances the folder mtime (the premise of the property); a `tick` advances the mtime only",
                   "deliveries happen between commands in this check; deliveries *inside* commands are schedule events of the S engine",
                   "sessions: A selected (INBOX or other), B selecting/idling on INBOX"],
-                 time_budget=70 if tier == "quick" else 900)
+                 time_budget=150 if tier == "quick" else 900)
     from ..explore import sched
 
     per = []
